@@ -380,6 +380,7 @@ Section TyInd.
   Hypothesis HPtr : forall e, P e -> P (TPtr e).
   Hypothesis HStruct : forall fs, Forall (fun kt => P (snd kt)) fs -> P (TStruct fs).
   Hypothesis HVer : forall alts, Forall (fun kt => P (snd kt)) alts -> P (TVer alts).
+  Hypothesis HDrop : forall e, P e -> P (TDrop e).
 
   Fixpoint mp_ty_ind' (t : mp_ty) : P t :=
     match t with
@@ -399,6 +400,7 @@ Section TyInd.
                       | [] => Forall_nil _
                       | kt :: tl => Forall_cons kt (mp_ty_ind' (snd kt)) (go tl)
                       end) alts)
+    | TDrop e => HDrop e (mp_ty_ind' e)
     end.
 End TyInd.
 
@@ -440,6 +442,7 @@ Fixpoint mp_wf_ty (t : mp_ty) : Prop :=
                 forall ft, In (mp_version_key, ft) fs -> ft = TStr) /\ all tl
          | [] => True
          end) alts
+  | TDrop _ => False      (* not lossless: outside the round-trip theorem *)
   | _ => True
   end.
 
@@ -478,6 +481,7 @@ Fixpoint mp_wf (t : mp_ty) (v : mp_val) {struct t} : Prop :=
              else find tl
          | [] => False
          end) alts
+  | TDrop e, x => mp_wf e x
   | _, _ => False
   end.
 
@@ -588,7 +592,7 @@ Qed.
 
 Lemma mp_enc_head t : mp_wf_ty t -> forall v, mp_wf t v -> mp_head_ok t (mp_enc t v).
 Proof.
-  induction t using mp_ty_ind'; intros Ht v Hv; unfold mp_head_ok;
+  induction t using mp_ty_ind'; intros Ht v Hv; try (exfalso; exact Ht); unfold mp_head_ok;
     destruct v; cbn [mp_wf] in Hv; try contradiction.
   - destruct b; eexists; eexists; (split; [reflexivity|]); intros _; discriminate.
   - destruct (mp_head_int z) as (l & tl & E & Hn). cbn [mp_enc]. eauto.
@@ -668,7 +672,7 @@ Qed.
 Lemma mp_skip1_enc t : mp_wf_ty t -> forall v, mp_wf t v -> forall fuel rest,
   (length (mp_enc t v) <= fuel)%nat -> mp_skip1 fuel (mp_enc t v ++ rest) = Some rest.
 Proof.
-  induction t using mp_ty_ind'; intros Ht v Hv fuel rest Hf;
+  induction t using mp_ty_ind'; intros Ht v Hv fuel rest Hf; try (exfalso; exact Ht);
     (destruct fuel as [|f]; [pose proof (mp_enc_length _ v Ht Hv); lia|]);
     destruct v; cbn [mp_wf] in Hv; try contradiction.
   - apply mp_skip1_bool.
@@ -882,7 +886,7 @@ Qed.
 Theorem mp_dec_enc t : mp_wf_ty t -> forall v rest, mp_wf t v ->
   mp_dec t (mp_enc t v ++ rest) = Some (v, rest).
 Proof.
-  induction t using mp_ty_ind'; intros Ht v rest Hv;
+  induction t using mp_ty_ind'; intros Ht v rest Hv; try (exfalso; exact Ht);
     destruct v; cbn [mp_wf] in Hv; try contradiction.
   - cbn [mp_dec mp_enc]. rewrite mp_rd_bool_wr. reflexivity.
   - cbn [mp_dec mp_enc]. rewrite mp_rd_int_wr by assumption. reflexivity.
@@ -1001,6 +1005,7 @@ Fixpoint mp_wf_tyb (t : mp_ty) : bool :=
              mp_wf_tyb at_ && match at_ with TStruct fs => forallb mp_version_str fs | _ => false end && all tl
          | [] => true
          end) alts
+  | TDrop _ => false
   | _ => true
   end.
 
@@ -1014,7 +1019,7 @@ Qed.
 
 Lemma mp_wf_tyb_sound t : mp_wf_tyb t = true -> mp_wf_ty t.
 Proof.
-  induction t using mp_ty_ind'; intros Hb; cbn [mp_wf_tyb mp_wf_ty] in *; auto.
+  induction t using mp_ty_ind'; intros Hb; cbn [mp_wf_tyb mp_wf_ty] in *; auto; try discriminate.
   - unfold mp_bitsb, mp_int_bits in *. lia.
   - unfold mp_bitsb, mp_int_bits in *. lia.
   - apply andb_prop in Hb. destruct Hb as [H1 H2]. split; [auto|]. apply negb_true_iff in H2. exact H2.
@@ -1072,4 +1077,18 @@ Proof.
   induction fs_new as [|[k' t'] tl IH]; [discriminate|]. cbn [mp_first] in Hnew.
   destruct (mp_key_eqb k' mp_version_key) eqn:E; [|apply IH; exact Hnew].
   inversion Hnew. subst t'. cbn [fst snd]. rewrite E. reflexivity.
+Qed.
+
+(* ---------- types whose UnmarshalMsg copies nothing back ---------- *)
+
+Lemma mp_drop_reads_zero e v rest : mp_wf_ty e -> mp_wf e v ->
+  mp_dec (TDrop e) (mp_enc (TDrop e) v ++ rest) = Some (mp_zero e, rest).
+Proof.
+  intros Ht Hv. cbn [mp_dec mp_enc]. destruct v; rewrite mp_dec_enc by assumption; reflexivity.
+Qed.
+
+Lemma mp_drop_loses e v rest : mp_wf_ty e -> mp_wf e v -> v <> mp_zero e ->
+  mp_dec (TDrop e) (mp_enc (TDrop e) v ++ rest) <> Some (v, rest).
+Proof.
+  intros Ht Hv Hne H. rewrite mp_drop_reads_zero in H by assumption. inversion H. congruence.
 Qed.
